@@ -16,6 +16,10 @@ CHECKS = {
    text="TLC model-checks spec/Channel.tla, the mechanism of Send/Receive/Close at the granularity of the code's yield points (locks, done channel, Go channel wait queues) for NoCrash, Conservation, AtMostOnce, PerSenderFIFO, LateSendFails; a controlled scheduler parks real goroutines at the verif hooks and walks the model's state graph, following whichever outcome the real code produces (online conformance); every recorded call/return history (forced walks + free-running -race stress with GOMAXPROCS 1..16) is validated by TLC against ChannelRef (spec/ChannelLin.tla: linearizable FIFO queue with close). The pinned design (Design=none) is kept as a named deviation that TLC refutes.",
    note="Trusted: goroutine ids from runtime.Stack, FIFO wait queues of Go channels, the race detector as observation instrument. A disagreement about blocking without a property-level symptom is exit 2, never a violation.",
    tech="TLA+ mechanism spec (Channel.tla) checked by TLC + controlled-scheduler conformance walk; recorded histories trace-validated against ChannelLin.tla"),
+ "C10": dict(cat="model_checking", ref="§5 C10",
+   text="TLC model-checks spec/RegistryLocks.tla (the RWMutex discipline around the registry maps: pinned lock modes are refuted, repaired ones satisfy NoConcurrentMapWrite/NoAccessDuringWrite for 3 goroutines); the real VM is then stressed per lock class under the race detector (fresh names keep writers writing), and call/return histories recorded from 4..16 goroutines are split per name and validated by TLC against spec/RegistryLin.tla, the atomic reference (duplicate rejected for all but one registrant, success visible to all later lookups, first-writer-wins constants, identity-stable globals).",
+   note="Trusted: Go race detector / concurrent-map check as observation instruments; recorder orders call/return events under one mutex (pass 2 only).",
+   tech="TLA+ lock-discipline spec checked by TLC; recorded concurrent histories trace-validated (linearizability) against RegistryLin.tla; -race stress"),
 }
 NOT_YET = "check not built yet in this round (planned: TLA+ spec + conformance binding, see DESIGN.md §5)"
 def main():
